@@ -257,16 +257,19 @@ def main():
     if r1.distinct != len(others) or r2.distinct != len(fields):
         raise MachineryError("trace acceptance: TLC visited %d+%d states, expected %d+%d" % (r1.distinct, r2.distinct, len(others), len(fields)))
     ck.judged(len(records))
-    sres = tlc.judge("Trace_ArgsSteps", "Trace_ArgsSteps.cfg", step_recs, workers=8)
-    nsnap = sum(len(x["steps"]) for x in step_recs)
-    if sres.distinct != nsnap:
-        raise MachineryError("trace acceptance (element steps): TLC visited %d states, expected %d" % (sres.distinct, nsnap))
-    ck.mc(sres, "Trace element steps")
-    ck.count("element_loop_snapshots_validated_against_ArgsLoops_actions", nsnap)
-    if sres.tagged("DIV"):
-        ck.count("element_step_divergences", len(sres.tagged("DIV")))
-        t0 = sres.tagged("DIV")[0]
-        ck.note("divergence at step %s: ArgsLoops differs from the element loop on %s" % (t0[2], byid[t0[1]]["repr"]))
+    if not step_recs:
+        ck.note("step-level binding skipped: the loop heads of the element loops were not found (restructured code)")
+    else:
+        sres = tlc.judge("Trace_ArgsSteps", "Trace_ArgsSteps.cfg", step_recs, workers=8)
+        nsnap = sum(len(x["steps"]) for x in step_recs)
+        if sres.distinct != nsnap:
+            raise MachineryError("trace acceptance (element steps): TLC visited %d states, expected %d" % (sres.distinct, nsnap))
+        ck.mc(sres, "Trace element steps")
+        ck.count("element_loop_snapshots_validated_against_ArgsLoops_actions", nsnap)
+        if sres.tagged("DIV"):
+            ck.count("element_step_divergences", len(sres.tagged("DIV")))
+            t0 = sres.tagged("DIV")[0]
+            ck.note("divergence at step %s: ArgsLoops differs from the element loop on %s" % (t0[2], byid[t0[1]]["repr"]))
     for x in records:
         c = x["c"]
         ck.keys.add("%s|%s|%s|%s" % (c["kind"], ",".join(c["pols"]), "".join("B" if (e["koff"] or e["voff"]) else "g" for e in c["entries"]), x["r"]["ok"]))
